@@ -33,7 +33,7 @@ ASSUMPTIONS = [
     "allocation (vec![0; len] in fill_buffer, cells.reserve, the dense range) is not modelled; generated bounding boxes stay small although row / column indices reach 1048575 / 16383",
     "next_formula / parse_formula (the formula text) are C14's; the tail of BrtFmla* records is opaque here",
 ]
-TMP = os.path.join(vlib.CACHE, "tmp", "c03")
+TMP = os.path.join(vlib.CACHE, "tmp", "c03-%d" % os.getpid())
 KEEP = os.path.join(vlib.ROOT, "replays", "C03-files")
 KNOWN_NAMES = {}          # no known class left (wsdim_absent was repaired in /repo)
 
